@@ -458,6 +458,7 @@ func extractLexTable(p *Prog, ops *OpTable) (*LexTable, error) {
 	}
 	p.buildSSA()
 	lt := &LexTable{VarPos: varPos, litFunc: map[*ast.FuncLit]*ssa.Function{}}
+	curLitFunc = lt.litFunc
 	sp := p.SSAPkg[pk.PkgPath]
 	var addAnon func(fn *ssa.Function)
 	addAnon = func(fn *ssa.Function) {
@@ -1043,6 +1044,9 @@ type callBinding struct {
 
 var curCallBind map[*ssa.Parameter]callBinding
 
+// curLitFunc: the SSA function of each function literal of the lexer file (set while the table is built).
+var curLitFunc map[*ast.FuncLit]*ssa.Function
+
 func prefTypeOfValue(v ssa.Value, fvEnv map[*ssa.FreeVar]*absVal) string {
 	switch x := v.(type) {
 	case *ssa.Parameter:
@@ -1079,6 +1083,44 @@ func prefTypeOfValue(v ssa.Value, fvEnv map[*ssa.FreeVar]*absVal) string {
 		if fv, ok := x.X.(*ssa.FreeVar); ok {
 			return prefTypeOfValue(fv, fvEnv)
 		}
+	case *ssa.Call:
+		// `toPrefs(number)`: the preferences are built by a function value the factory was given
+		var lit *ast.FuncLit
+		switch cv := x.Call.Value.(type) {
+		case *ssa.FreeVar:
+			if a := fvEnv[cv]; a != nil && a.kind == "closure" {
+				lit = a.lit
+			}
+		case *ssa.UnOp:
+			if fv, ok := cv.X.(*ssa.FreeVar); ok {
+				if a := fvEnv[fv]; a != nil && a.kind == "closure" {
+					lit = a.lit
+				}
+			}
+		case *ssa.Parameter:
+			if vv, ok := cv.Object().(*types.Var); ok && curFactoryEnv != nil {
+				if a := curFactoryEnv[vv]; a != nil && a.kind == "closure" {
+					lit = a.lit
+				}
+			}
+		}
+		if lit != nil && curLitFunc != nil {
+			if f := curLitFunc[lit]; f != nil {
+				out := ""
+				for _, b := range f.Blocks {
+					if ret, ok := b.Instrs[len(b.Instrs)-1].(*ssa.Return); ok && len(ret.Results) == 1 {
+						t := prefTypeOfValue(ret.Results[0], nil)
+						if out != "" && out != t {
+							return "?"
+						}
+						out = t
+					}
+				}
+				if out != "" {
+					return out
+				}
+			}
+		}
 	}
 	return "?"
 }
@@ -1098,6 +1140,18 @@ func flagOfValue(p *Prog, ops *OpTable, fn *ssa.Function, v ssa.Value, fvEnv map
 				return "true", nil, ""
 			}
 			return "false", nil, ""
+		}
+		// the factory was handed `someOpType.CheckForPostTraverse`
+		if a := fvEnv[x]; a != nil && a.kind == "opaque" && a.expr != nil {
+			if sel, ok := a.expr.(*ast.SelectorExpr); ok && sel.Sel.Name == "CheckForPostTraverse" {
+				if id, ok := sel.X.(*ast.Ident); ok {
+					for gv, ot := range ops.ByVar {
+						if gv.Name() == id.Name {
+							return "bytype", []*OpType{ot}, ""
+						}
+					}
+				}
+			}
 		}
 	case *ssa.UnOp:
 		if x.Op == token.MUL {
